@@ -1469,6 +1469,8 @@ def check(rep, tier, seed, driver):
         rep.count("prox_exact_ties", info.get("ties", 0))
         rep.count("prox_overflow_queries", info.get("overflow", 0))
 
+    reused_buffer_stream(rep, rng, 60 if quick else 600)
+
     # generator floors
     h = rep.hist
     for key, floor in (("grid_coords_raw_beyond_int32", 50), ("grid_coords_near_integer_raw", 100), ("cvt_exact_ties", 20),
@@ -1479,6 +1481,42 @@ def check(rep, tier, seed, driver):
                           {"kind": "generator-degenerate"})
     rep.notes.append("GridArchive configurations whose interval width overflows float64 (upper - lower = inf) are not generated; "
                      "ProximityArchive answers of the squared-distance-overflow class carry the same tag kind as CVTArchive's (same cKDTree cause)")
+
+
+def reused_buffer_stream(rep, rng, n):
+    """index_of is a function of the VALUES it is given: a caller that refills one preallocated measures array in place between calls must get
+    the answers for the new contents (what a fresh copy of the array gets), for every archive type and search strategy."""
+    import arch_util as au
+    from ribs.archives import ProximityArchive
+    for k in range(n):
+        if k % 5 == 4:
+            nd = rng.choice([1, 2, 3])
+            dt = rng.choice([np.float32, np.float64])
+            a = ProximityArchive(solution_dim=1, measure_dim=nd, k_neighbors=1, novelty_threshold=0.0, dtype=dt)
+            pts = np.array([[rng.randrange(-16, 17) / 8.0 for _ in range(nd)] for _ in range(rng.randint(2, 9))], dtype=dt)
+            a.add(np.zeros((len(pts), 1), dtype=dt), np.zeros(len(pts), dtype=dt), pts)
+            ranges, kind = [[-2.0, 2.0]] * nd, "proximity"
+        else:
+            spec = au.gen_spec(rng, kinds=("grid", "cvt", "cvt_brute", "cvt_chunk", "sliding"), max_cells=40)
+            spec["extras"] = []
+            a = au.make_archive(spec)
+            dt, ranges, kind = au.DT[spec["dtype"]], spec["ranges"], spec["kind"]
+        rows = rng.choice([1, 3, 7])
+        draw = lambda: np.array([[rng.uniform(lo - 0.5, hi + 0.5) for lo, hi in ranges] for _ in range(rows)], dtype=dt)
+        buf = draw()
+        first = np.array(a.index_of(buf), copy=True)
+        a.index_of_single(buf[0])
+        buf[...] = draw()                       # refill in place: same array object, new contents
+        again = np.array(a.index_of(buf), copy=True)
+        fresh = np.array(a.index_of(np.array(buf, copy=True)), copy=True)
+        single = int(a.index_of_single(buf[0]))
+        rep.count("reused_buffer_cases")
+        if not np.array_equal(again, fresh) or single != int(fresh[0]):
+            rep.violation("%s archive: index_of on a measures array that was refilled in place answers %s, a fresh copy of the same values gets %s "
+                          "(index_of_single of row 0: %d; the answer for the previous contents was %s)" % (kind, again.tolist(), fresh.tolist(), single, first.tolist()),
+                          {"kind": "property", "broken": "index_of maps measures (values) to the documented cell; index_of_single agrees with index_of",
+                           "case": {"archive": kind, "dtype": np.dtype(dt).name, "contents": buf.tolist()}}, True, {"kind": "index-of-depends-on-array-identity"})
+            return
 
 
 def replay(rp, driver):
